@@ -18,6 +18,7 @@ fn main() {
     install_panic_hook();
     match args[1].as_str() {
         "C01" => props::c01::run(tier),
+        "C02" => props::c02::run(tier),
         "C03" => props::c03::run(tier),
         "C04" => props::c04::run(tier),
         "C12" => props::c12::run(tier),
